@@ -299,13 +299,54 @@ def r5(ctx):
     ctx.ob("R5", "TellableStreamWrapper.read loops until the requested size or EOF and returns everything it read", ok, func=rd, node=rd.node, instance="tellable:loop")
 
 
-RULES = [("R1", r1), ("R2", r2), ("R3", r3), ("R4", r4), ("R5", r5)]
-FLOORS = {"R1": 5, "R2": 2, "R3": 4, "R4": 6, "R5": 5}
+def r6(ctx):
+    """(a) only the looping `read` methods touch the raw underlying stream: any other method of a position-tracking
+    wrapper that consumes bytes (seek/skip) must go through `self.read`, which retries short reads;
+    (b) PAX scope: only a *global* extended header (XGLTYPE) may update the archive-wide pax_headers in place; a
+    per-member header works on a copy (otherwise one member's `path` record is applied to every later member)."""
+    p = ctx.prog
+    tell = f"{MOD}.TellableStreamWrapper"
+    n = 0
+    for cq in [tell, *p.subclasses(tell)]:
+        c = p.classes.get(cq)
+        if c is None:
+            continue
+        for m in c.methods.values():
+            raw = _underlying_reads(m)
+            if not raw:
+                continue
+            n += 1
+            ok = m.name == "read"
+            ctx.ob("R6", f"{c.name}.{m.name}: raw reads of the underlying stream happen only in the looping read()", ok, func=m, node=raw[0],
+                   instance=f"{c.name}.{m.name}:raw-read",
+                   message=f"{c.name}.{m.name} reads the underlying stream directly instead of through self.read(): a short read is not retried, so the "
+                           "position falls behind the requested offset and the next header is parsed from the middle of data/padding")
+    ctx.require(n >= 1, "C23.R6: no raw read found in the position-tracking wrappers")
+    f = p.func(f"{MOD}.AioTarInfo._proc_pax")
+    alias = [x for x in f.body_nodes() if isinstance(x, ast.Assign) and unparse(x.value) == "tarstream.pax_headers"]
+    copies = [x for x in f.body_nodes() if isinstance(x, ast.Assign) and unparse(x.value) in ("tarstream.pax_headers.copy()", "dict(tarstream.pax_headers)", "copy.copy(tarstream.pax_headers)")]
+    ctx.require(bool(alias) and bool(copies), "C23.R6: pax header scoping not found in _proc_pax")
+    from ..model import ancestors as _anc
+
+    okp = True
+    for a in alias:
+        conds = [x for x in _anc(a) if isinstance(x, ast.If)]
+        okp = okp and bool(conds) and unparse(conds[0].test) in ("self.type == tarfile.XGLTYPE", "tarfile.XGLTYPE == self.type") and any(a is s or a in ast.walk(s) for s in conds[0].body)
+    ctx.ob("R6", "only a global PAX header updates the archive-wide pax_headers in place", okp, func=f, node=alias[0], instance="_proc_pax:scope",
+           message="a per-member PAX extended header is written into the archive-wide pax_headers: its path/size records are applied to every following member")
+
+
+RULES = [("R1", r1), ("R2", r2), ("R3", r3), ("R4", r4), ("R5", r5), ("R6", r6)]
+FLOORS = {"R1": 5, "R2": 2, "R3": 4, "R4": 6, "R5": 5, "R6": 2}
 
 T = f"{MOD}.TellableStreamWrapper.read"
 VARIANTS = [
     V("seek: single underlying read, position = offset (S5a revert)", FILE, f"{MOD}.SeekableStreamReaderWrapper.seek",
       "await self.read(offset - self.position)", "await self.stream.read(offset - self.position)\n        self.position = offset", "R1", control=True),
+    V("seek skips with single raw reads per record", FILE, f"{MOD}.SeekableStreamReaderWrapper.seek",
+      "await self.read(offset - self.position)",
+      "blocks, remainder = divmod(offset - self.position, tarfile.RECORDSIZE)\n        for _ in range(blocks):\n            self.position += len(await self.stream.read(tarfile.RECORDSIZE))\n        if remainder != 0:\n            self.position += len(await self.stream.read(remainder))", "R6"),
+    V("per-member PAX header written into the global headers", FILE, f"{MOD}.AioTarInfo._proc_pax", "self.type == tarfile.XGLTYPE", "self.type == tarfile.XHDTYPE", "R6"),
     V("tellable read: loop removed", FILE, T, "while size > 0 if size is not None else True:", "for _ in range(1):", "R5"),
     V("tellable read: position advanced by request", FILE, T, "self.position += len(buf)", "self.position += size or 0", "R1"),
     V("file reader: position advanced by requested length", FILE, f"{MOD}.FileStreamReaderWrapper.read", "self.position += len(buf)", "self.position += length", "R1"),
